@@ -37,6 +37,8 @@ type QueueProxy struct {
 	OnRemove func(items []QItem, requested uint, modelBefore []QItem)
 	OnAck    func(items []QItem)
 	OnNack   func(items []QItem)
+	// OnSeam sees every Len/Peek/Remove call when it starts executing (harness bookkeeping).
+	OnSeam func(method string)
 }
 
 func item(op *operation.QueuedOperation, version uint64) QItem {
@@ -94,6 +96,10 @@ func (q *QueueProxy) Add(op *operation.QueuedOperation, version uint64) (uint, e
 func (q *QueueProxy) Peek(num uint) (operation.QueuedOperationsAtTime, error) {
 	q.K.Yield(q.Label + ".Peek")
 
+	if q.OnSeam != nil {
+		q.OnSeam("Peek")
+	}
+
 	ops, err := q.Real.Peek(num)
 	if err != nil {
 		return ops, err
@@ -111,6 +117,10 @@ func (q *QueueProxy) Peek(num uint) (operation.QueuedOperationsAtTime, error) {
 func (q *QueueProxy) Len() uint {
 	q.K.Yield(q.Label + ".Len")
 
+	if q.OnSeam != nil {
+		q.OnSeam("Len")
+	}
+
 	n := q.Real.Len()
 	if int(n) != len(q.Model) {
 		q.fail("len", fmt.Sprintf("Len returned %d, sequential queue has %d", n, len(q.Model)))
@@ -122,6 +132,10 @@ func (q *QueueProxy) Len() uint {
 // Remove implements cutter.OperationQueue.
 func (q *QueueProxy) Remove(num uint) (operation.QueuedOperationsAtTime, func() uint, func(error), error) {
 	q.K.Yield(q.Label + ".Remove")
+
+	if q.OnSeam != nil {
+		q.OnSeam("Remove")
+	}
 
 	ops, ack, nack, err := q.Real.Remove(num)
 	if err != nil {
